@@ -21,6 +21,10 @@ CHAIN_G = ("class Stage<T> extends Link<T> { public constructor() -> Stage<T> { 
            "class Link<T> extends Carrier { public constructor() -> Link<T> { super(); } }\n")
 CHAIN_P = ("class Carrier { public qubit payload; public constructor() -> Carrier = default;\n"
            "  public function flipPayload() -> void { x(this.payload); }\n  public function readPayload() -> bit { bit r0 = measure this.payload; return r0; } }\n")
+MORGUE = ("static class Morgue { public static Probe last; }\n"
+          "class Probe { public qubit q; public int alive; public constructor() -> Probe { this.alive = 1; } public destructor() -> void { Morgue.last = this; } }\n"
+          "class Fresh { public qubit q; public constructor() -> Fresh { } }\n"
+          "function useAndDrop() -> void { Probe p = new Probe(); h(p.q); }\n")
 HANDLE_PROBES = [
     ("init_local", "function main() -> void { qubit a; qubit b = a; x(a); bit r = measure b; echo(r); bit s = measure a; }\n", "0"),
     ("init_elem", "function main() -> void { qubit[2] reg; qubit d = reg[1]; x(reg[1]); bit r = measure d; echo(r); measure reg; }\n", "0"),
@@ -54,6 +58,15 @@ HANDLE_PROBES = [
                                "bit s = p.readPayload(); bit t = p.readSense(); }\n", "0"),
     ("generic_chain_control", CHAIN_D + CHAIN_G + CHAIN_P + "function main() -> void { Probe p = new Probe(); p.flipPayload(); bit s = p.readPayload(); echo(s); "
                               "bit r = p.readSense(); }\n", "1"),
+    # a destroyed owner that stayed addressable (its destructor published 'this'): whatever it still answers, its released qubit
+    # index - recycled by a new declaration - is not reachable through it
+    ("dead_owner_field", MORGUE + "function main() -> void { useAndDrop(); Fresh f = new Fresh(); Probe dead = Morgue.last; if (dead.alive == 1) { x(dead.q); } "
+                         "bit r = measure f.q; echo(r); }\n", "0"),
+    ("dead_owner_local", MORGUE + "function main() -> void { useAndDrop(); qubit f; Probe dead = Morgue.last; if (dead.alive == 1) { x(dead.q); } "
+                         "bit r = measure f; echo(r); }\n", "0"),
+    ("dead_owner_array", MORGUE.replace("public qubit q;", "public qubit[2] q;", 1).replace("h(p.q);", "h(p.q[1]);") +
+                         "function main() -> void { useAndDrop(); qubit[2] f; Probe dead = Morgue.last; if (dead.alive == 1) { x(dead.q[0]); x(dead.q[1]); } "
+                         "bit r = measure f[0]; bit s = measure f[1]; echo(r); }\n", "0"),
     # controls: ONE declaration reached by two names must be shared
     ("param_is_same_qubit", "function f(qubit p) -> void { x(p); }\nfunction main() -> void { qubit a; f(a); bit r = measure a; echo(r); }\n", "1"),
     ("field_via_two_refs", QCLS + "function main() -> void { Q o = new Q(); Q o2 = o; x(o.q); bit r = measure o2.q; echo(r); }\n", "1"),
@@ -77,6 +90,8 @@ def handle_probes(out):
             sh = r["shots"][0]
             if sh["status"] == "ok" and sh["echo"] == [want]:
                 continue
+            if route.startswith("dead_owner") and sh["status"] == "runtime":
+                continue      # refusing to use the dead object's handle keeps the handles distinct as well
             got = sh["echo"] if sh["status"] == "ok" else "%s: %s" % (sh["status"], sh.get("what", "").strip())
             what = "handle route '%s': a fresh declaration must read %s; interpreter: %s" % (route, want, got)
         hit = [f for f in known if route in f["sig"].get("routes", [])]
